@@ -21,6 +21,7 @@ EXPLANATION = (
     "of the ordinal lambda, date_formats made only of known tokens; (5) the unit-selection ladder has its "
     "reference shape (largest unit first, rounding thresholds). NOT decided: wording of the translations, "
     "equality of the count with the documented rounding for every pair of instants."
+    ' Also: the mixed-radix digits (hours, minutes, remaining_seconds) a plain Duration puts into the phrases, including the guards around them.'
 )
 
 UNITS = ["year", "month", "week", "day", "hour", "minute", "second"]
